@@ -16,7 +16,7 @@ def gen_cfg(name, consts, classes, depth, sw=False, nidl=False, fallback="FetchA
         txt += "  %s = %s\n" % (k, v)
     txt += "  Depth = %d\n  Classes = {%s}\n  Fallback = \"%s\"\n  CfgSW = %s\n  CfgNidl = %s\n  CfgSO = %s\n  CfgRmErr = %s\nCHECK_DEADLOCK FALSE\n" % (
         depth, ",".join('"%s"' % c for c in classes), fallback, "TRUE" if sw else "FALSE", "TRUE" if nidl else "FALSE", "TRUE" if so else "FALSE",
-        "TRUE" if be == "file" else "FALSE")
+        "TRUE" if be.startswith("file") else "FALSE")
     return name, txt
 
 
@@ -24,7 +24,7 @@ def beh_cfg(consts, sw=False, nidl=False, so=False, nide=False, be="inmem"):
     ck = [x.strip('"') for x in consts["CertKeys"].strip("{}").split(",")]
     tk = [x.strip('"') for x in consts["Tokens"].strip("{}").split(",")]
     # the projection always covers the trace spec's constants (BASE3), whatever subset the behaviour uses
-    return dict(sw=sw, nidl=nidl, so=so, nide=nide, be=be, rmerr=(be == "file"), certKeys=["k1", "k2", "k3"], tokens=["t1", "t2"])
+    return dict(sw=sw, nidl=nidl, so=so, nide=nide, be=be, rmerr=be.startswith("file"), certKeys=["k1", "k2", "k3"], tokens=["t1", "t2"])
 
 
 GEN_CFGS = {}
@@ -75,6 +75,14 @@ FAMILY = dict(
           dict(quick=100, thorough=2000), ["C01"], sw=True),
         G("C01c", BASE2, ["Authorize", "Remove", "Regw", "FetchAuth", "FetchNear", "FetchNear"], 12,
           dict(quick=60, thorough=1500), ["C01"], so=True),
+        # the file back end (one handle, and two handles on one directory: which one serves a step must not matter)
+        G("C01d", BASE2, ["Authorize", "Token", "Remove", "Remove", "FetchAuth", "FetchNear", "FetchAny"], 12,
+          dict(quick=40, thorough=800), ["C01"], be="file"),
+        G("C01e", BASE2, ["Authorize", "Token", "Remove", "FetchAuth", "FetchAuth", "FetchNear"], 12,
+          dict(quick=40, thorough=800), ["C01", "C06"], be="file2"),
+        # requests whose info is sealed with the server's storage wrapper; token fetches with the skip-storage option
+        G("C01f", BASE2, ["Authorize", "Token", "Regw", "FetchSW", "FetchSW", "FetchSkip", "FetchAuth"], 10,
+          dict(quick=40, thorough=800), ["C01", "C06"], sw=True),
         G("C06a", BASE2, ["Token", "Age", "Authorize", "Remove", "FetchAuth", "FetchNear", "Tamper"], 12,
           dict(quick=120, thorough=2500), ["C06"], sw=True),
         G("C06b", BASE2, ["Token", "Age", "Authorize", "FetchAuth", "FetchNear", "Tamper"], 12,
@@ -97,6 +105,8 @@ FAMILY = dict(
           dict(quick=50, thorough=1000), ["C05"], nidl=True, nide=True),
         G("C10a", BASE3S, ["Authorize", "Nid", "Prev", "Remove", "Rotate", "RotNear", "Strip"], 12,
           dict(quick=120, thorough=2500), ["C10"], nidl=True),
+        G("C10c", BASE3S, ["Authorize", "Prev", "Remove", "Rotate", "RotNear", "RotNear"], 12,
+          dict(quick=40, thorough=800), ["C10"], nidl=False, be="file2"),
         G("C10b", BASE3S, ["Authorize", "Prev", "Remove", "Rotate", "RotNear"], 12,
           dict(quick=80, thorough=1500), ["C10"], nidl=False, sw=True),
     ],
